@@ -186,8 +186,10 @@ def main():
     n_dis = sum(1 for o in obligations if o["status"] in ("SUCCESS", "UNREACHABLE", "VERIFIED"))
     ev = P.evidence(prop, tier, seed, meta, obligations, n_obl, n_dis, harness_rows, verus_rows, undecided,
                     new_failed, known_hit, wall, src_hash, injected, canary_ok)
-    os.makedirs(os.path.join(vlib.VERIF, "evidence"), exist_ok=True)
-    with open(os.path.join(vlib.VERIF, "evidence", prop + ".json"), "w") as f:
+    # runs against another tree (VERIF_REPO: seeded changes) must not overwrite the evidence of /repo
+    evdir = os.environ.get("VERIF_EVIDENCE_DIR") or (os.path.join(vlib.VERIF, "evidence") if vlib.REPO == "/repo" else os.path.join(vlib.VERIF, "logs", "evidence-other-tree"))
+    os.makedirs(evdir, exist_ok=True)
+    with open(os.path.join(evdir, prop + ".json"), "w") as f:
         json.dump(ev, f, indent=1)
 
     if new_failed:
